@@ -256,6 +256,9 @@ func (d *Datastore) Sync(ctx context.Context) {
 
 	var err error
 	var pruneID string
+	// the notifications whose writes are in flight, with the paths they touch
+	var inFlightMu sync.Mutex
+	inFlight := map[*target.SyncUpdate][]*sdcpb.Path{}
 MAIN:
 	for {
 		select {
@@ -304,6 +307,24 @@ MAIN:
 				continue // MAIN FOR loop
 			}
 			// a regular notification
+			// Nothing orders the writes of two notifications that are in flight at the same time. A notification that
+			// touches what an in-flight one touches waits until those writes are done, so that the newer value lands last.
+			paths := syncNotificationPaths(syncup.Update)
+			inFlightMu.Lock()
+			overlaps := false
+			for _, otherPaths := range inFlight {
+				if pathsOverlap(paths, otherPaths) {
+					overlaps = true
+					break
+				}
+			}
+			inFlightMu.Unlock()
+			if overlaps {
+				err = d.waitForSyncWriters(ctx, sem)
+				if err != nil {
+					return
+				}
+			}
 			log.Debugf("%s: sync acquire semaphore", d.Name())
 			err = sem.Acquire(ctx, 1)
 			if err != nil {
@@ -315,10 +336,51 @@ MAIN:
 				continue
 			}
 			log.Debugf("%s: sync acquired semaphore", d.Name())
-			go d.storeSyncMsg(ctx, syncup, sem)
+			inFlightMu.Lock()
+			inFlight[syncup] = paths
+			inFlightMu.Unlock()
+			go func(syncup *target.SyncUpdate) {
+				d.storeSyncMsg(ctx, syncup, sem)
+				inFlightMu.Lock()
+				delete(inFlight, syncup)
+				inFlightMu.Unlock()
+			}(syncup)
 			verifYield("sync.spawned")
 		}
 	}
+}
+
+// syncNotificationPaths returns the paths a notification received from the target touches.
+func syncNotificationPaths(n *sdcpb.Notification) []*sdcpb.Path {
+	paths := make([]*sdcpb.Path, 0, len(n.GetUpdate())+len(n.GetDelete()))
+	for _, upd := range n.GetUpdate() {
+		paths = append(paths, upd.GetPath())
+	}
+	paths = append(paths, n.GetDelete()...)
+	return paths
+}
+
+// pathsOverlap reports whether a path of a is equal to, an ancestor or a descendant of a path of b.
+// Keys that only one of the two paths carries do not tell them apart.
+func pathsOverlap(a, b []*sdcpb.Path) bool {
+	for _, pa := range a {
+	NEXT:
+		for _, pb := range b {
+			ea, eb := pa.GetElem(), pb.GetElem()
+			for i := 0; i < len(ea) && i < len(eb); i++ {
+				if ea[i].GetName() != eb[i].GetName() {
+					continue NEXT
+				}
+				for k, v := range ea[i].GetKey() {
+					if w, ok := eb[i].GetKey()[k]; ok && w != v {
+						continue NEXT
+					}
+				}
+			}
+			return true
+		}
+	}
+	return false
 }
 
 // waitForSyncWriters blocks until all the storeSyncMsg goroutines that hold the semaphore are done.
